@@ -23,6 +23,12 @@ type Profile struct {
 	IterOpsMax int
 	// Opt tweaks the drawn options.
 	Opt func(t *rapid.T, o *OptPlan)
+	// BlobIngestPct: percentage of ingestions whose tables are reduced to point
+	// sets and written with separated values (external blob files).
+	BlobIngestPct int
+	// WALRelocate lets restarts move the WAL directory (the old one is listed
+	// in WALRecoveryDirs from then on).
+	WALRelocate bool
 	// NoRangeKeys disables range keys and combined iteration entirely.
 	NoRangeKeys bool
 	// Masking enables range-key masking options on iterators.
@@ -887,6 +893,10 @@ func GenOptions(t *rapid.T, p Profile) OptPlan {
 		o.ValSepDepth = rapid.IntRange(1, 5).Draw(t, "vsdepth")
 		o.ValSepGarbageLow = rapid.SampledFrom([]int{5, 30, 100}).Draw(t, "vsglow")
 	}
+	if p.BlobIngestPct > 0 && rapid.IntRange(0, 9).Draw(t, "fmvblob") < 4 {
+		// ingestion of blob files needs one of the newest format versions
+		o.FMV = int(pebble.FormatNewest)
+	}
 	if p.Opt != nil {
 		p.Opt(t, &o)
 	}
@@ -1030,6 +1040,10 @@ func (g *gen) emit(label, kind string) {
 	case "flush", "wait", "restart":
 		if kind == "restart" {
 			g.snaps, g.iters, g.ibs, g.efos = nil, nil, nil, nil
+			if g.p.WALRelocate && !g.opt.DisableWAL && rapid.IntRange(0, 9).Draw(g.t, label+"reloc") < 4 {
+				s.Flag = true
+				s.N = rapid.IntRange(0, 1).Draw(g.t, label+"relocto")
+			}
 		}
 		if kind != "wait" {
 			g.unsyncd = false
@@ -1045,11 +1059,39 @@ func (g *gen) emit(label, kind string) {
 		s.Flag = rapid.Bool().Draw(g.t, label+"par")
 	case "ingest", "ingestexcise":
 		s.Tables = g.tables(label)
+		if g.p.BlobIngestPct > 0 && rapid.IntRange(0, 99).Draw(g.t, label+"blobs") < g.p.BlobIngestPct {
+			// the sst+blob writer takes point sets only
+			var ts [][]Op
+			for _, t := range s.Tables {
+				var keep []Op
+				for _, o := range t {
+					if o.K == "set" {
+						keep = append(keep, o)
+					}
+				}
+				if len(keep) > 0 {
+					ts = append(ts, keep)
+				}
+			}
+			if len(ts) > 0 {
+				s.Tables, s.Blobs = ts, true
+			}
+		}
 		if len(s.Tables) == 0 {
 			s.K = "wait"
 			break
 		}
 		g.preStructural()
+		if s.Blobs && rapid.IntRange(0, 9).Draw(g.t, label+"blobmem") < 6 {
+			// a synced commit of a key of the first table right before: the
+			// ingestion overlaps the memtable and takes the flushable path
+			// (recovered from the WAL if a crash precedes its flush)
+			g.nval++
+			o := Op{K: "set", A: s.Tables[0][0].A, V: fmt.Sprintf("v%d", g.nval)}
+			g.steps = append(g.steps, Step{K: "write", Ops: []Op{o}, Sync: true})
+			g.st = g.st.Apply([]Op{o})
+			g.commitOps([]Op{o})
+		}
 		exA, exB := "", ""
 		if kind == "ingestexcise" {
 			s.A, s.B = g.span(label + "ex")
